@@ -1,7 +1,7 @@
 import HapVerif.Model.Crypto.Real
 
 namespace HapVerif.Drv.Crypto
-open HapVerif HapVerif.Crypto
+open HapVerif HapVerif.RealCrypto
 
 def handle : List String → Option String
   | ["sha512", m] => some (toHex (sha512 (ofHex m)))
